@@ -223,6 +223,30 @@ CHECKS.update({
    design_ref='DESIGN.md 4 (C11)'),
 })
 
+CHECKS.update({
+ 'C26': dict(
+   category='exploration', engine='symx', note=ENUM_NOTE,
+   technique='exhaustive enumeration (symx selectors) of registry operation histories through the real textx.registration functions, compared step by step with a reference map model; no solver verdict',
+   text=("Path-exhaustive over histories: every sequence of 3 (quick, starting with a registration) / 4 (thorough) operations out of 35 over a small universe (case variants of a name, "
+         "instance- and factory-registered metamodels, patterns, files, generator targets) runs through the real registry and must agree at every step with a case-insensitive map model "
+         "(duplicates refused, entry points back after clearing, pattern matching, cached vs fresh metamodels)."),
+   design_ref='DESIGN.md 4 (C26)'),
+ 'C29': dict(
+   category='exploration', engine='symx', note=ENUM_NOTE,
+   technique='exhaustive enumeration (symx selectors) of strings over the DOT-relevant characters in every string slot of a model, exported by the real exporters and read back by an independent DOT reader; no solver verdict',
+   text=("Path-exhaustive: every string of <= 2 / 3 characters over {\" \\ | { } < > newline ? a} in each string slot (object name, string attribute, primitive list element, "
+         "mixed-list element first / later, file name) is exported by the real model_export_to_file and must be readable by an independent DOT reader (Graphviz lexical rules, statement "
+         "and record-label grammar) with a node for every object; metamodel DOT and PlantUML exports of grammars with hostile literals are checked for well-formedness and completeness."),
+   design_ref='DESIGN.md 4 (C29)'),
+ 'C34': dict(
+   category='exploration', engine='symx', note=ENUM_NOTE,
+   technique='exhaustive enumeration (symx selectors) of postponement schedules over whole real loads with textx_tools_support=True; positions compared with those known from the assembled input text; no solver verdict',
+   text=("Path-exhaustive over postponement schedules (1 / 2 postponable attempts per reference) of a single-file and a two-file model with plain and qualified references and nested "
+         "objects sharing spans: every model's _pos_crossref_list must list each reference once, ordered, with exact start/end and the target's file and span; _pos_rule_dict must map "
+         "every span to the innermost object with that span and list inner spans before the spans containing them."),
+   design_ref='DESIGN.md 4 (C34)'),
+})
+
 NA = {
  'C16': "history quantifier over whole-program API calls; no data dimension to make symbolic — only enumeration of concrete call sequences would remain (DESIGN.md 5)",
  'C17': "decided by file-system I/O, glob, abspath and repository objects handed between nested real loads; only enumeration of import graphs would remain (DESIGN.md 5)",
